@@ -183,6 +183,13 @@ func converterFlowQ(d *declInfo, src types.Object, dstOwners map[string]bool, qu
 				for f := range srcFieldsOf(d, s.Cond, src, locals) {
 					rel.add(key, f)
 				}
+			case *ast.CaseClause:
+				// `switch { case n.Type == X: … }` — the case expressions are the condition
+				for _, ce := range s.List {
+					for f := range srcFieldsOf(d, ce, src, locals) {
+						rel.add(key, f)
+					}
+				}
 			case *ast.RangeStmt:
 				for f := range srcFieldsOf(d, s.X, src, locals) {
 					rel.add(key, f)
